@@ -324,6 +324,8 @@ def c_optpair(p):
 # ------------------------------------------------------------------ sources and option tables
 def base_sources():
     """Small dyadic-friendly grids for the correspondence (north-up, south-up, 180-degree rotated)."""
+    from affine import Affine
+    from odc.geo import wh_
     from odc.geo.geobox import GeoBox
 
     out = []
@@ -331,6 +333,9 @@ def base_sources():
     out.append(GeoBox.from_bbox([-6.5, 35.25, -5.25, 36.125], "EPSG:4326", resolution=2.0 ** -9))
     out.append(GeoBox.from_bbox([1440000, -4000000, 1440000 + 10240, -4000000 + 5120], "EPSG:3577", resolution=10))
     out.append(GeoBox.from_bbox([-700000, 4200000, -700000 + 4096, 4200000 + 4096], "EPSG:3857", resolution=8))
+    # south-up, non-square pixels; mirrored (both components negative)
+    out.append(GeoBox(wh_(256, 128), Affine(16, 0, 600000, 0, 8, 5000000), "EPSG:32633"))
+    out.append(GeoBox(wh_(128, 128), Affine(-32, 0, 600000 + 4096, 0, -32, 5000000), "EPSG:32633"))
     return out
 
 
@@ -339,6 +344,7 @@ TARGETS = {
     "EPSG:4326": ["EPSG:4326", "EPSG:4283", "EPSG:3857", "EPSG:32630"],
     "EPSG:3577": ["EPSG:3577", "EPSG:6933", "EPSG:4326", "EPSG:32755"],
     "EPSG:3857": ["epsg:3857", "EPSG:6933", "EPSG:4326", "EPSG:32629"],
+    "EPSG:32633": ["EPSG:32633", "EPSG:3857", "EPSG:4326", "EPSG:3035"],
 }
 
 RES_REQS = ["same", "auto", "fit", "bad", 32.0, 2.0 ** -8, [16.0, -8.0], [0.25, 0.5], -4.0]
@@ -495,7 +501,7 @@ def gen_out_cases(out, tier, reg):
         for crs in TARGETS[str(src.crs)]:
             for rq in ["same", "auto", "fit", "bad", 32.0, [16.0, -8.0]]:
                 for shp in [None, 8, [4, 8]]:
-                    if tier == "quick" and src is not srcs[0] and rng.random() < 0.75:
+                    if tier == "quick" and src is not srcs[0] and rng.random() < 0.8:
                         continue
                     add(src, scenario(crs, rq, shp))
     # 2. anchors x tight x shape kinds (resolution-driven with a dyadic resolution so the numbers are exact)
@@ -1000,7 +1006,9 @@ def search_sources(tier):
 def search_requests(rng, n):
     """request options: the documented combinations first, then random ones"""
     fixed = [
-        dict(), dict(tol=0.0), dict(resolution="fit"), dict(resolution="same"), dict(resolution="fit", rr=True),
+        dict(), dict(resolution="same", tol=0.0, anchor=["str", "center"]),
+        dict(tight=True, anchor=["xy", [0.25, 0.75]], resolution="fit"),
+        dict(tol=0.0), dict(resolution="fit"), dict(resolution="same"), dict(resolution="fit", rr=True),
         dict(tight=True), dict(anchor=["str", "center"]), dict(anchor=["xy", [0.25, 0.75]]), dict(shape=64),
         dict(shape=64, tight=True), dict(shape=[50, 70]), dict(shape=[50, 70], tight=True),
         dict(anchor=["enum", "FLOATING"], tol=0.0), dict(anchor=["num", 0.3]), dict(resolution="fit", rr="pow2"),
@@ -1070,14 +1078,14 @@ def search(out, tier):
     for rp in core.corpus(ID):
         run("corpus:" + rp.get("_file", ""), rp["src"], rp["scn"], k_edge=2000)
     srcs = search_sources(tier)
-    nreq = 5 if tier == "quick" else 40
+    nreq = 6 if tier == "quick" else 40
     for label, src_s, targets in srcs:
         big = label.startswith(("continent", "world"))
-        reqs = search_requests(rng, 15 if tier == "thorough" else 15)
+        reqs = search_requests(rng, 18)
         if tier == "quick":
-            reqs = reqs[:2] + rng.sample(reqs[2:], nreq - 2)
+            reqs = reqs[:3] + rng.sample(reqs[3:], nreq - 3)
         else:
-            reqs = reqs + search_requests(rng, nreq)[15:]
+            reqs = reqs + search_requests(rng, nreq)[18:]
         for crs in targets:
             is_utm = crs.lower().startswith("utm")
             for o in reqs:
